@@ -188,6 +188,9 @@ def dataset_gate(case):
 # --------------------------------------------------------------------------------------
 _EQ = [{"label": "%s,%s" % (cfg, rel), "cfg": cfg, "rel": rel} for cfg in ("a", "v", "av")
        for rel in ("arbitrary", "other_units")] + [{"label": "av,reordered", "cfg": "av", "rel": "reordered"}] + [{"label": "different_keys", "cfg": "a", "rel": "keys"},
+                                                    {"label": "left_keys_subset_of_right", "cfg": "a", "rel": "keys_subset"},
+                                                    {"label": "right_keys_subset_of_left", "cfg": "a", "rel": "keys_superset"},
+                                                    {"label": "empty_vs_nonempty", "cfg": "empty", "rel": "keys_subset"},
                                                     {"label": "empty", "cfg": "empty", "rel": "arbitrary"}]
 
 
@@ -198,6 +201,20 @@ def eq(case):
     dims = A.Dims()
     core.assume(dims.n >= 1)
     g, gm = mk_group(CONFIGS[case["cfg"]], dims)
+    if case["rel"] in ("keys_subset", "keys_superset"):
+        # one key set strictly contains the other (the shared members are the very same objects): never equal, either way
+        h = osy.Datagroup()
+        for k in g.keys():
+            h[k] = g[k]
+        extra = A.mk_array("extra", dims, "1d")
+        h["zz_extra"] = extra
+        left, right = (g, h) if case["rel"] == "keys_subset" else (h, g)
+        try:
+            r = left == right
+        except KeyError:
+            r = "KeyError"
+        prove("strict_subset_of_keys_unequal", r is False)
+        return
     if case["rel"] == "keys":
         h, hm = mk_group(["b"], dims)
         try:
